@@ -8,7 +8,7 @@ def model_check(ctx):
         return
     # vacuity guard on a small bounded configuration (coverage accounting is expensive on the recursive operators)
     r0 = ctx.model_check("trie", "MC_MPT", "MC_MPT_cov.cfg", coverage=True, timeout=600)
-    ctx.check_coverage(r0, ["Set", "Del", "Snap", "Reset", "Flush", "Reload", "ClearCache", "Check"], allow_zero=("Look",))
+    ctx.check_coverage(r0, ["Set", "Del", "Snap", "Reset", "Flush", "Reload", "ClearCache", "Check"], allow_zero=("Look", "SnapLazy"))
     # exhaustive: every map over the key universe, any set/delete order (no op bound): one state per map
     ctx.model_check("trie", "MC_MPT", ctx.pick("MC_MPT.cfg", "MC_MPT_thorough.cfg"), timeout=ctx.pick(600, 3000))
     # with snapshot slots: set/delete/snapshot/reset/flush/reload/clear-cache in any order
@@ -48,6 +48,9 @@ def behaviours(ctx):
     # directed: EVERY history of 4 calls (set/delete incl. the ones that change nothing, snapshot, flush, reload, clear-cache)
     # on a trie that starts populated: mutations that meet hash references and end without a change
     walks3 += ctx.behaviours("trie", "Gen_MPT", "Gen_MPT_dir.cfg", timeout=ctx.pick(900, 3000))
+    # directed 2: EVERY history of 3 calls over set/delete, GetSnapshot WITHOUT hashing it, and a later look at that snapshot,
+    # on a trie with a key that is a proper prefix of others (value in a branch node)
+    walks3 += ctx.behaviours("trie", "Gen_MPT", "Gen_MPT_dir2.cfg", timeout=ctx.pick(900, 3000))
     bfs = []
     if not ctx.quick():
         bfs = ctx.behaviours("trie", "Gen_MPT", "Gen_MPT.cfg", constants={"MaxOps": 2, "Depth": 2}, timeout=1200)
